@@ -32,7 +32,11 @@ type killedHandler struct {
 func (h *killedHandler) handleChildDeath() {
 	if !h.message.Ref.Equals(h.ctx.ref) {
 		h.ctx.childrenLock.Lock()
-		delete(h.ctx.children, h.message.Ref.GetPath())
+		// 路径在子 Actor 终止时即被释放，名称可能已被新的子 Actor 复用：仅当登记项仍指向已终止的那个子 Actor 时才移除，
+		// 否则会把新子 Actor 的登记删掉，导致其在父 Actor 终止时不会被一并终止
+		if ref, ok := h.ctx.children[h.message.Ref.GetPath()]; ok && ref == h.message.Ref {
+			delete(h.ctx.children, h.message.Ref.GetPath())
+		}
 		childrenCount := len(h.ctx.children)
 		h.ctx.childrenLock.Unlock()
 		h.ctx.executeBehaviorWithRecovery(h.behavior)
